@@ -134,7 +134,7 @@ Proof.
     split; [exact Edet|]. split; [exact Eargs|]. split; [exact Ekw|].
     exists (trace cfg ops1), ms, outs1. split; [rewrite Epre, Eop; reflexivity|].
     rewrite <- Ec in Htm.
-    destruct (bi_open _ _ B1 _ _ Hi) as (pre0 & proc & ca & ckw & orc & rid & idet & rest & Etr & (Q1 & Q2 & Q3) & Qt).
+    destruct (bi_open _ _ B1 _ _ Hi) as (pre0 & proc & ca & ckw & orc & rid & idet & rest & Etr & (Q1 & Q2 & Q3) & Qt & _).
     destruct (Qt tid dl (inv_call inv) Hti Htm) as (Hlt & Harm).
     rewrite Ecid in Etr, Q1, Q3, Harm. cbn [fst snd] in Etr, Q1, Q3, Harm.
     exists pre0, (inv_opts inv), proc, ca, ckw, orc, (fst k1), (snd k1), rid, idet, rest, dl.
@@ -230,7 +230,7 @@ Proof.
     split; [exact Ek|]. split; [exact E3|]. split.
     { pose proof (bi_nometa _ _ B1 _ _ Hi) as Hnm. rewrite <- Hce in Hnm.
       destruct (can_cancel_feature r1 inv W1 Hnm Hcc) as (ys & F & Hf). exists ys. rewrite E1. auto. }
-    destruct (bi_open _ _ B1 _ _ Hi) as (pre0 & proc & a & kw & orc & rid & det & rest & Etr & (Q1 & Q2 & Q3) & Qt).
+    destruct (bi_open _ _ B1 _ _ Hi) as (pre0 & proc & a & kw & orc & rid & det & rest & Etr & (Q1 & Q2 & Q3) & Qt & _).
     rewrite Ek in Etr, Q2, Q3, Qt. cbn [fst snd] in *.
     exists pre0, rid, det, rest, proc, a, kw, orc. split; [exact Etr|]. split; [exact Q2|].
     split; [rewrite <- surjective_pairing in Q1; exact Q1|]. split; [intros e He; apply (Q3 Hcan e He)|].
